@@ -505,3 +505,326 @@ Definition lv_cmp_sparse (c : cmp) (a b : bits) : res bits :=
 (* template sparse_logical_vector_scalar_array_comparison, scalar: x = True op other, y = False op other *)
 Definition lv_cmp_scalar (a : bits) (x y : bool) : bits := map (fun v : bool => if v then x else y) a.
 Definition lv_invert (a : bits) : bits := map negb a.
+
+(* ------------------------------------------------------------------ logical vector indexing *)
+Definition getb (a : bits) (i : nat) : bool := nth i a false.
+Definition setb1 (a : bits) (i : nat) (v : bool) : res bits :=
+  if Nat.ltb i (length a) then Ok (upd a i v)
+  else if v then Err EOther else Ok a.          (* set.add(i) beyond size / set.discard(i) *)
+Fixpoint setb_zip (a : bits) (idx : list nat) (vals : list bool) : res bits :=
+  match idx, vals with
+  | i :: idx', v :: vals' => do a' <- setb1 a i v; setb_zip a' idx' vals'
+  | _, _ => Ok a
+  end.
+Fixpoint setb_all (a : bits) (idx : list nat) (v : bool) : res bits :=
+  match idx with i :: idx' => do a' <- setb1 a i v; setb_all a' idx' v | [] => Ok a end.
+
+(* ------------------------------------------------------------------ objects, operands, operations *)
+Inductive vec := VF (c : cells) | VB (b : bits).
+Inductive obj :=
+| OV (c : cells) (ro : bool)          (* SparseVector: cells, read_only *)
+| OL (b : bits)                       (* SparseLogicalVector *)
+| OA (rows : list cells) (ro : bool)  (* SparseArray of SparseVector rows; ro = every row read_only *)
+| OB (rows : list bits).              (* SparseArray of SparseLogicalVector rows *)
+Definition store := list obj.
+
+Inductive arg :=
+| AObj (i : nat) | AScal (q : Q) | ABool (b : bool)
+| AArr (l : list Q) | ABArr (l : bits) | AArr2 (m : list (list Q)) | ABArr2 (m : list bits).
+
+(* operand after the class tests and reduce_ndim of the dispatch templates *)
+Inductive operand :=
+| PV (c : cells) | PL (b : bits) | PA (rows : list cells) | PB (rows : list bits)
+| PS (q : Q) (isbool : bool) | PArr (l : list Q) (isbool : bool) | PArr2 (m : list (list Q)) (isbool : bool).
+
+Definition b2q (b : bool) : Q := if b then 1 else 0.
+Definition truthy (q : Q) : bool := negb (qzerob q).
+Definition getobj (s : store) (i : nat) : res obj :=
+  match nth_error s i with Some o => Ok o | None => Err EOther end.
+
+(* reduce_ndim: leading axes of length 1 are dropped *)
+Definition reduce1 (l : list Q) (isbool : bool) : operand :=
+  match l with [x] => PS x isbool | _ => PArr l isbool end.
+Definition reduce2 (m : list (list Q)) (isbool : bool) : operand :=
+  match m with [r] => reduce1 r isbool | _ => PArr2 m isbool end.
+Definition resolve (s : store) (a : arg) : res operand :=
+  match a with
+  | AObj j => do o <- getobj s j;
+              Ok (match o with OV c _ => PV c | OL b => PL b | OA r _ => PA r | OB r => PB r end)
+  | AScal q => Ok (PS q false)
+  | ABool b => Ok (PS (b2q b) true)
+  | AArr l => Ok (reduce1 l false)
+  | ABArr l => Ok (reduce1 (map b2q l) true)
+  | AArr2 m => Ok (reduce2 m false)
+  | ABArr2 m => Ok (reduce2 (map (map b2q) m) true)
+  end.
+
+Inductive aop := Add | Sub | Mul | Div.
+Inductive bop := BA (o : aop) | BC (c : cmp) | BL (o : lop).     (* BL only LAnd, LXor, LOr *)
+
+(* lg = true selects the kernels as they are in the unrepaired source *)
+Definition k_sparse (lg : bool) (o : aop) : cells -> cells -> res cells :=
+  match o with Add => add_sparse | Sub => sub_sparse | Mul => mul_sparse
+          | Div => if lg then truediv_sparse_legacy else truediv_sparse end.
+Definition k_scalar (o : aop) : cells -> Q -> res cells :=
+  match o with Add => add_scalar | Sub => sub_scalar | Mul => mul_scalar | Div => truediv_scalar end.
+Definition k_array (o : aop) : cells -> list Q -> res cells :=
+  match o with Add => add_array | Sub => sub_array | Mul => mul_array | Div => truediv_array end.
+(* _i<op>_sparse; alias = other is self *)
+Definition ik_sparse (lg : bool) (o : aop) (alias : bool) (a b : cells) : res cells :=
+  if alias then
+    match o with
+    | Add => iadd_self a
+    | Sub => if lg then isub_self a else isub_self_fixed a
+    | Mul => imul_self a
+    | Div => if lg then itruediv_sparse_legacy a a else itruediv_self a
+    end
+  else
+    match o with
+    | Div => if lg then itruediv_sparse_legacy a b else truediv_sparse a b
+    | _ => k_sparse lg o a b
+    end.
+Definition lop_of (o : aop) : lop := match o with Add => LAdd | Mul => LMul | Div => LDiv | Sub => LAdd end.
+
+Definition okF (r : res cells) : res vec := do c <- r; Ok (VF c).
+Definition okB (r : res bits) : res vec := do b <- r; Ok (VB b).
+Definition unsupported {A} : res A := Err EOther.
+
+(* one vector (row) against one resolved operand that is not a SparseArray / 2-d value:
+   templates sparse_vector_math, sparse_vector_comparison_math, sparse_logical_vector_math_pseudo_optimized,
+   sparse_logical_vector_scalar_array_comparison *)
+Definition vec_bin (lg : bool) (o : bop) (self : vec) (p : operand) : res vec :=
+  match self with
+  | VF c =>
+      match o, p with
+      | BA a, PV d => okF (k_sparse lg a c d)
+      | BA a, PL d => okF (k_sparse lg a c (cells_of_bits d))
+      | BA a, PS q _ => okF (k_scalar a c q)
+      | BA a, PArr l _ => okF (k_array a c l)
+      | BC m, PV d => okB (cmp_sparse m c d)
+      | BC m, PL d => okB (cmp_sparse m c (cells_of_bits d))
+      | BC m, PS q _ => okB (cmp_scalar m c q)
+      | BC m, PArr l _ => okB (cmp_array m c l)
+      | _, _ => unsupported
+      end
+  | VB b =>
+      let fb := cells_of_bits b in
+      match o, p with
+      | BA Sub, PV d => okF (k_sparse lg Sub fb d)
+      | BA Sub, PL d => okF (k_sparse lg Sub fb (cells_of_bits d))
+      | BA Sub, PS q _ => okF (k_scalar Sub fb q)
+      | BA Sub, PArr l _ => okF (k_array Sub fb l)
+      | BA a, PL d => okB (lv_isparse (lop_of a) b d)
+      | BA a, PV d => okF (k_sparse lg a fb d)
+      | BA a, PS q isb => if isb then okB (lv_iscalar (lop_of a) b (truthy q) (truthy (1 + q)))
+                          else okF (k_scalar a fb q)
+      | BA a, PArr l isb => if isb then okB (lv_iarray (lop_of a) b (map truthy l))
+                            else okF (k_array a fb l)
+      | BL lo, PL d => okB (lv_isparse lo b d)
+      | BL lo, PS q true => okB (lv_iscalar lo b (truthy q) (truthy (1 + q)))
+      | BL lo, PArr l true => okB (lv_iarray lo b (map truthy l))
+      | BC m, PL d => okB (lv_cmp_sparse m b d)
+      | BC m, PV d => okB (cmp_sparse m fb d)
+      | BC m, PS q _ => Ok (VB (lv_cmp_scalar b (qcmp m 1 q) (qcmp m 0 q)))
+      | BC m, PArr l _ =>
+          if Nat.eqb (length b) (length l) then Ok (VB (map2 (fun x j => qcmp m (b2q x) j) b l))
+          else if Nat.eqb (length b) 1 then Ok (VB (map (fun j => qcmp m (b2q (hdb b)) j) l))
+          else Err EValue
+      | _, _ => unsupported
+      end
+  end.
+
+(* in-place: sparse_vector_imath (the read_only test is done by the caller) *)
+Definition vec_ibin (lg : bool) (o : bop) (alias : bool) (self : vec) (p : operand) : res vec :=
+  match self with
+  | VF c =>
+      match o, p with
+      | BA a, PV d => okF (ik_sparse lg a alias c d)
+      | BA a, PL d => okF (ik_sparse lg a false c (cells_of_bits d))
+      | BA a, PS q _ => okF (k_scalar a c q)
+      | BA a, PArr l _ => okF (k_array a c l)
+      | _, _ => unsupported
+      end
+  | VB b =>
+      match o, p with
+      | BA Sub, _ => Err EType
+      | BA a, PL d => okB (lv_isparse (lop_of a) b d)
+      | BA a, PV d => okB (lv_isparse (lop_of a) b (bits_of_cells d))
+      | BA a, PS q true => okB (lv_iscalar (lop_of a) b (truthy q) (truthy (1 + q)))
+      | BA a, PArr l true => okB (lv_iarray (lop_of a) b (map truthy l))
+      | BL lo, PL d => okB (lv_isparse lo b d)
+      | BL lo, PV d => okB (lv_isparse lo b (bits_of_cells d))
+      | BL lo, PS q true => okB (lv_iscalar lo b (truthy q) (truthy (1 + q)))
+      | BL lo, PArr l true => okB (lv_iarray lo b (map truthy l))
+      | _, _ => unsupported
+      end
+  end.
+
+(* rows of a new SparseArray *)
+Fixpoint all_F (l : list vec) : option (list cells) :=
+  match l with [] => Some [] | VF c :: t => option_map (cons c) (all_F t) | VB _ :: _ => None end.
+Fixpoint all_B (l : list vec) : option (list bits) :=
+  match l with [] => Some [] | VB c :: t => option_map (cons c) (all_B t) | VF _ :: _ => None end.
+Definition obj_of_rows (l : list vec) : res obj :=
+  match all_F l with
+  | Some r => Ok (OA r false)
+  | None => match all_B l with Some r => Ok (OB r) | None => unsupported end
+  end.
+Definition obj_of_vec (v : vec) : obj := match v with VF c => OV c false | VB b => OL b end.
+Definition rows_of (o : obj) : list vec :=
+  match o with OV c _ => [VF c] | OL b => [VB b] | OA r _ => map VF r | OB r => map VB r end.
+Definition operand_of_vec (v : vec) : operand := match v with VF c => PV c | VB b => PL b end.
+
+(* SparseVector / SparseLogicalVector binary dispatch (self is a vector) *)
+Definition vector_bin (lg : bool) (o : bop) (self : vec) (p : operand) : res obj :=
+  match p with
+  | PA r => do l <- mapM (fun row => vec_bin lg o self (PV row)) r; obj_of_rows l
+  | PB r => do l <- mapM (fun row => vec_bin lg o self (PL row)) r; obj_of_rows l
+  | PArr2 m isb => do l <- mapM (fun row => vec_bin lg o self (PArr row isb)) m; obj_of_rows l
+  | _ => do v <- vec_bin lg o self p; Ok (obj_of_vec v)
+  end.
+(* SparseArray binary dispatch: sparse_array_math *)
+Definition array_bin (lg : bool) (o : bop) (rows : list vec) (p : operand) : res obj :=
+  let go (others : list operand) :=
+    match rows, others with
+    | [row], _ => do l <- mapM (fun x => vec_bin lg o row x) others; obj_of_rows l
+    | _, [x] => do l <- mapM (fun r => vec_bin lg o r x) rows; obj_of_rows l
+    | _, _ => do l <- map2M (fun r x => vec_bin lg o r x) rows others; obj_of_rows l
+    end in
+  match p with
+  | PA r => go (map PV r)
+  | PB r => go (map PL r)
+  | PArr2 m isb => do l <- map2M (fun r x => vec_bin lg o r (PArr x isb)) rows m; obj_of_rows l
+  | _ => do l <- mapM (fun r => vec_bin lg o r p) rows; obj_of_rows l
+  end.
+(* SparseArray in-place dispatch: sparse_array_imath.  aliasrows = other is the same SparseArray *)
+Definition is_float_rows (rows : list vec) : bool :=
+  match rows with VB _ :: _ => false | _ => true end.
+Definition array_ibin (lg : bool) (o : bop) (alias : bool) (rows : list vec) (p : operand) : res (list vec) :=
+  match p with
+  | PA r => if negb (is_float_rows rows) then Err EValue       (* cannot cast boolean to float *)
+            else match r with
+                 | [x] => mapM (fun row => vec_ibin lg o false row (PV x)) rows
+                 | _ => map2M (fun row x => vec_ibin lg o alias row (PV x)) rows r
+                 end
+  | PB r => match r with
+            | [x] => mapM (fun row => vec_ibin lg o false row (PL x)) rows
+            | _ => map2M (fun row x => vec_ibin lg o alias row (PL x)) rows r
+            end
+  | PV d => if negb (is_float_rows rows) then Err EValue
+            else mapM (fun row => vec_ibin lg o false row p) rows
+  | PArr2 m isb => map2M (fun row x => vec_ibin lg o false row (PArr x isb)) rows m
+  | _ => mapM (fun row => vec_ibin lg o false row p) rows
+  end.
+
+(* ------------------------------------------------------------------ operations on the store *)
+Inductive index :=
+| IInt (k : nat) | ITup (k : nat) | IList (l : list nat) | IMask (m : bits)
+| ISlice (start stop step : nat) | IOpen.
+
+Inductive op :=
+| OBin (o : bop) (i : nat) (a : arg)        (* store[i] o a : a new object or a value *)
+| OIBin (o : bop) (i : nat) (a : arg)       (* store[i] o= a *)
+| ORBin (o : aop) (k : Q) (i : nat)         (* k o store[i] with a python float k *)
+| ONeg (i : nat) | OAbs (i : nat) | OInvert (i : nat) | OCopy (i : nat)
+| OClear (i : nat) | OSetRO (i : nat) | OToArray (i : nat)
+| OGet (i : nat) (ix : index)
+| OSet (i : nat) (ix : index) (v : arg)
+| ORed (r : red) (i : nat) (axis : option nat) (keep : bool).
+
+Inductive outcome :=
+| RErr (e : err)
+| RNew (o : obj)          (* a new sparse object, appended to the store *)
+| RUnit                   (* in-place / mutator returned normally *)
+| RSelf                   (* the operand itself is returned *)
+| RScal (q : Q) | RBool (b : bool)
+| RDense (l : list Q) | RDenseB (l : bits) | RDense2 (m : list (list Q)) | RDenseB2 (m : list bits).
+
+Definition index_list (n : nat) (ix : index) : list nat :=
+  match ix with
+  | IInt k | ITup k => [k]
+  | IList l => l
+  | IMask m => mask_idx m
+  | ISlice a b c => slice_range a b c
+  | IOpen => seq 0 n
+  end.
+
+Definition vec_get (v : vec) (ix : index) : outcome :=
+  match v, ix with
+  | _, IOpen => RSelf
+  | VF c, IInt k | VF c, ITup k => RScal (getc c k)
+  | VB b, IInt k | VB b, ITup k => RBool (getb b k)
+  | VF c, _ => RDense (map (getc c) (index_list (length c) ix))
+  | VB b, _ => RDenseB (map (getb b) (index_list (length b) ix))
+  end.
+
+(* value of a vector __setitem__ after reduce_ndim; PV/PL of size 1 reduce to their element *)
+Definition sval_of (p : operand) : res sval :=
+  match p with
+  | PS q _ => Ok (SVScal q)
+  | PArr l _ => Ok (SVArr l)
+  | PV [x] => Ok (SVScal (dcell x))
+  | PV c => Ok (SVObj c)
+  | PL [x] => Ok (SVScal (b2q x))
+  | PL b => Ok (SVArr (map b2q b))          (* not class SparseVector: enumerated, float(True) = 1. *)
+  | _ => Err EIndex                          (* vd > 1: cannot broadcast / set an element with a sequence *)
+  end.
+Definition vecF_set (c : cells) (ix : index) (p : operand) : res cells :=
+  do v <- sval_of p;
+  match ix with
+  | IInt k | ITup k => match v with SVScal q => set1 c k q | _ => Err EIndex end
+  | IOpen => set_open c v
+  | _ => set_idx c (index_list (length c) ix) v
+  end.
+(* SparseLogicalVector.__setitem__ *)
+Definition vecB_set (b : bits) (ix : index) (p : operand) : res bits :=
+  match ix with
+  | IInt k | ITup k => match p with
+                       | PS q _ => setb1 b k (truthy q)
+                       | PV [x] => setb1 b k (truthy (dcell x))
+                       | PL [x] => setb1 b k x
+                       | _ => Err EIndex end
+  | IOpen => match p with
+             | PS q _ => Ok (if truthy q then trues (length b) else falses (length b))
+             | PV [x] => Ok (if truthy (dcell x) then trues (length b) else falses (length b))
+             | PL [x] => Ok (if x then trues (length b) else falses (length b))
+             | PL d => setb_zip (falses (length b)) (seq 0 (length d)) d          (* set.update(value.set) *)
+             | PV d => setb_zip (falses (length b)) (seq 0 (length d)) (bits_of_cells d)
+             | PArr l _ => setb_zip (falses (length b)) (seq 0 (length l)) (map truthy l)
+             | _ => Err EIndex end
+  | _ => let idx := index_list (length b) ix in
+         match p with
+         | PS q _ => setb_all b idx (truthy q)
+         | PV [x] => setb_all b idx (truthy (dcell x))
+         | PL [x] => setb_all b idx x
+         | PL d => setb_zip b idx d
+         | PV d => setb_zip b idx (map truthy (dense d))
+         | PArr l _ => setb_zip b idx (map truthy l)
+         | _ => Err EIndex end
+  end.
+
+(* reductions on vectors: axis None / 0 accepted (`if axis:`), anything else ValueError *)
+Definition red_vecF (r : red) (c : cells) (keep : bool) : outcome :=
+  let num (x : res Q) := match x with
+                         | Err e => RErr e
+                         | Ok q => if keep then RNew (OV (keep1 q) false) else RScal q end in
+  let lg (x : bool) := if keep then RNew (OL [x]) else RBool x in
+  match r with
+  | RAny => lg (sv_any c) | RAll => lg (sv_all c)
+  | RSum => num (Ok (sv_sum c)) | RMean => num (Ok (sv_mean c))
+  | RMax => num (sv_max c) | RMin => num (sv_min c)
+  end.
+Definition red_vecB (r : red) (b : bits) (keep : bool) : outcome :=
+  let n := nset b in
+  let num (x : res Q) := match x with
+                         | Err e => RErr e
+                         | Ok q => if keep then RNew (OV (keep1 q) false) else RScal q end in
+  let lg (x : bool) := if keep then RNew (OL [x]) else RBool x in
+  match r with
+  | RAny => lg (negb (Nat.eqb n 0)) | RAll => lg (Nat.eqb n (length b))
+  | RSum => num (Ok (qofnat n))
+  | RMean => num (Ok (if Nat.eqb n 0 then 0 else qofnat n / qofnat (length b)))
+  | RMax => num (if negb (Nat.eqb n 0) then Ok 1 else if len0 b then Err EValue else Ok 0)
+  | RMin => num (if negb (Nat.eqb n 0) then Ok (b2q (Nat.leb (length b) n))
+                 else if len0 b then Err EValue else Ok 0)
+  end.
